@@ -10,9 +10,14 @@ Timer variant, within a cap on the total number of yields (see inline_suites); e
 readiness instant per selecting task - all explored; the scheduler's _random for the priority-0.5 task and the
 virtual time consumed per step - deviations) are explored with mc.engine.explore within a deviation bound.
 
-PART 2 (threaded select hub, E-thr).  Twenty-one representative programs of the same grammar run with the scheduler
-thread + the select-hub thread (+ an environment thread that lets virtual time reach the fd readiness instants)
-under the controlled-thread explorer mc/thr.py, every schedule within a deviation bound.
+PART 2 (E-thr).  Representative programs of the same grammar (THR_PROGRAMS) run on controlled threads under the
+controlled-thread explorer mc/thr.py, every schedule within a deviation bound: (a) threaded select hub - the scheduler
+thread + the select-hub thread (+ an environment thread that lets virtual time reach the fd readiness instants);
+(b) INLINE select hub run on a scheduler thread of its own, with wake-ups that arrive from OTHER threads: the worker
+thread of a CallBlocking (returning at once / after a second / raising an Exception / raising SystemExit), a foreign thread that schedule()s a blocked
+task or start()s a new one (fast_schedule directly, or through a ScheduleTask), while the scheduler is busy, about to
+idle, or waiting in select for a timer; (c) the same cross-thread wake-ups with the threaded hub.  A wake-up that is
+only noticed because the hub's polling interval expires counts as lost.
 
 PART 3.  The hub's alternative select function, pox.lib.epoll_select.EpollSelect, against select.select on real
 local sockets, every short sequence of calls.
@@ -24,7 +29,10 @@ requested instant; a blocked task resumes only after a sibling scheduled
 it; a Select wake carries the task's own readable fd or an expired timeout; timers fire at >= each period, the
 expected number of times, never after cancel(); at the horizon nothing runnable is left un-run and every
 unfinished task waits for something that can never happen; a raising task leaves the others exactly as if it had
-ended there (differential twin); a sub-task's value / exception / plain return arrives at exactly its caller, also
+ended there (differential twin) whatever it raises (Exception, SystemExit, GeneratorExit, KeyboardInterrupt, another
+BaseException) and wherever (its step, the execute() of the operation it yielded, a timer callback, a sub-task) - in
+particular nothing it raises ends Scheduler.run(); a CallBlocking resumes its task once, with (value, None) or
+(None, exc_info), after the function finished; a sub-task's value / exception / plain return arrives at exactly its caller, also
 through two levels of sub-task calls; a Send resumes its task once, with the byte count, after all bytes reached the
 socket complete and in order whatever each send() accepted; a Recv hands over the next bytes of the stream or None
 after its timeout.
@@ -88,8 +96,24 @@ OPS = {
   "St":  ("start", None, "start() every Timer built with started=False; yield 0"),
   "C":   ("cancel", None, "cancel() every Timer; yield 0"),
   "X":   ("exit", None, "yield Exit()"),
-  "!":   ("raise", None, "raise"),
+  "!":   ("raise", "E", "raise"),
+  # what is raised need not be an Exception: the scheduler must contain everything a step can raise
+  "!S":  ("raise", "S", "raise SystemExit (sys.exit())"),
+  "!G":  ("raise", "G", "raise GeneratorExit"),
+  "!K":  ("raise", "K", "raise KeyboardInterrupt"),
+  "!B":  ("raise", "B", "raise a BaseException subclass that is not an Exception"),
+  # the yielded blocking operation itself fails when the scheduler executes it
+  "Bx":  ("opraise", "E", "yield a BlockingOperation whose execute() raises"),
+  "BxS": ("opraise", "S", "yield a BlockingOperation whose execute() raises SystemExit"),
+  "BxB": ("opraise", "B", "yield a BlockingOperation whose execute() raises a BaseException subclass that is not an Exception"),
+  "ArS": ("again", "rS", "yield Again(sub raising SystemExit)"),
+  # work handed to another OS thread (part 2 only): the completion is a wake-up that arrives from that thread
+  "CB":  ("callblocking", 0, "yield CallBlocking(func returning a value at once)"),
+  "CB1": ("callblocking", 1, "yield CallBlocking(func that takes 1 s, then returns a value)"),
+  "CBr": ("callblocking", "r", "yield CallBlocking(func raising)"),
+  "CBrS": ("callblocking", "rS", "yield CallBlocking(func raising SystemExit)"),
 }
+RAISE_KIND = {"E": "Exception", "S": "SystemExit", "G": "GeneratorExit", "K": "KeyboardInterrupt", "B": "other BaseException"}
 OPS_QUICK = ("0", "n1", "S2", "SN", "F", "Se", "Se1", "Av", "As", "Ar", "Ae", "W", "X", "!")
 OPS_NESTED = ("Nv", "Nc", "Nu", "Ncs", "Nus")
 OPS_EXTRA = ("S1", "S0", "n.5", "Se0", "Asr", "Ase", "TF", "TFr") + OPS_NESTED + ("Tx", "Txs", "Rx", "Rx1", "Sa-1", "Sa0", "Sa1")      # thorough, in the programs of few yields
@@ -110,8 +134,12 @@ OPS_IO_CTX = ("0", "n1", "SN", "Se1", "W", "!") + OPS_IO
 OPS_PRIO = ("0", "n1", "S2", "SN", "Se1", "W", "Av")
 # sleepers (tied deadlines, a longer one, zero timeouts) for the 3-entity quick suite
 OPS_SLEEPERS = ("0", "n1", "S2", "Se0")
-TERMINAL = ("X", "!")                                      # nothing after them can run
-SHAPE_NAME = {"v": "yields-value", "s": "sleeps-then-yields-value", "r": "raises", "e": "returns-without-yield",
+OPS_RAISES = ("!", "!S", "!G", "!K", "!B", "Bx", "BxS", "BxB")
+# what a task step / a blocking operation's execute() / a timer callback / a sub-task raises, in a small context vocabulary
+OPS_RAISE_CTX = ("0", "n1", "SN", "Se1", "W", "ArS") + OPS_RAISES
+TIMERS_RAISE = ("once", "cbx", "cbxS", "reccbx")
+TERMINAL = ("X",) + OPS_RAISES                               # nothing after them can run
+SHAPE_NAME = {"rS": "raises-SystemExit", "v": "yields-value", "s": "sleeps-then-yields-value", "r": "raises", "e": "returns-without-yield",
               "sr": "sleeps-then-returns", "se": "sleeps-then-raises", "tf": "plain-function-value",
               "tfr": "plain-function-raises",
               "nv": "calls-an-inner-sub-task-that-yields-a-value", "nc": "catches-the-exception-of-its-inner-sub-task",
@@ -121,7 +149,8 @@ SHAPE_NAME = {"v": "yields-value", "s": "sleeps-then-yields-value", "r": "raises
 SHAPE_KEY = dict((k, "subtask-result:" + v) for k, v in SHAPE_NAME.items())
 SHAPE_KEY.update(nv="subtask-result:nested-value", nc="subtask-result:nested-exception", nu="subtask-result:nested-exception",
                  ncs="subtask-result:nested-exception", nus="subtask-result:nested-exception")
-SHAPE_EXPECT = {"v": "val", "s": "val", "tf": "val", "r": "exc", "se": "exc", "tfr": "exc", "e": "none", "sr": "none",
+SHAPE_KEY["rS"] = "subtask-result:non-Exception-exception-never-reaches-the-caller"
+SHAPE_EXPECT = {"rS": "exc", "v": "val", "s": "val", "tf": "val", "r": "exc", "se": "exc", "tfr": "exc", "e": "none", "sr": "none",
                 "nv": "val", "nc": "val", "ncs": "val", "nu": "exc", "nus": "exc"}
 SHAPE_INNER = {"nv": "v", "nc": "r", "nu": "r", "ncs": "se", "nus": "se"}       # shape of the inner sub-task
 SLEEPING_SHAPES = ("s", "sr", "se", "ncs", "nus")
@@ -137,7 +166,11 @@ TIMERS = {
   "parked":    (False, 1, "Timer(1, cb, started=False), start()ed later by a task"),
   "parkedrec": (True, 2, "Timer(1, cb, recurring=True, started=False), start()ed later by a task, cb returns False on its 2nd call"),
   "nostop": (True, 2, "Timer(1, cb, recurring=True, selfStoppable=False), cb returns False, cancels on its 2nd call"),
+  "cbx":    (False, 1, "Timer(1, cb), cb raises"),
+  "cbxS":   (False, 1, "Timer(1, cb), cb raises SystemExit"),
+  "reccbx": (True, 1, "Timer(1, cb, recurring=True), cb raises on its 1st call"),
 }
+TIMER_RAISES = {"cbx": "E", "cbxS": "S", "reccbx": "E"}
 TIMER_ORDER = ("once", "rec2", "pre", "selfc", "nostop")
 
 
@@ -221,6 +254,21 @@ def prog_text (prog):
 class Abort (BaseException): pass
 class ScriptError (Exception): pass
 class SubError (Exception): pass
+class CBError (Exception): pass
+class ScriptBase (BaseException): pass        # raised by scripted tasks: a BaseException that is not an Exception
+
+
+def script_exc (kind, where, *args):
+  """The exception a scripted task / operation / callback / sub-task raises, marked as the script's own (so that a
+  SystemExit or KeyboardInterrupt meant for the harness process is never mistaken for it)."""
+  cls = {"E": ScriptError, "S": SystemExit, "G": GeneratorExit, "K": KeyboardInterrupt, "B": ScriptBase}[kind]
+  e = cls(*args)
+  e._c06_script = where
+  return e
+
+
+def scripted (e):
+  return getattr(e, "_c06_script", None)
 
 
 class VFd (object):
@@ -284,6 +332,7 @@ class Rec (object):
     self.steps = []             # (step, vtime)
     self.recv = []              # what each yield received
     self.style = None
+    self.cb_done = False        # the function handed to CallBlocking has finished
     # timers
     self.fires = []             # (seq, vtime at callback start)
     self.created = None
@@ -315,6 +364,8 @@ class World (object):
     self.step_time = {}           # part 2: virtual seconds a given step takes ("T1.0" -> 2), fixed by the program
     self.on_sched_thread = None   # callable (part 2)
     self.fd_at = None             # part 2: readiness offsets fixed by the program instead of explored
+    self.crashed = False          # what a task raised ended Scheduler.run()
+    self.late = ()                # part 2: entities that are not started at build time (another thread starts them)
 
   # ---- recording ----------------------------------------------------------------------------
   def fail (self, clause, what):
@@ -405,11 +456,12 @@ class World (object):
         if r.idx == 0:
           r.style = "subclass"
           r.obj = cls["ProgTask"](self, r)
-          r.state = "ready"
-          r.obj.start(sch, priority=r.prio, fast=True)
         else:
           r.style = "target"
           r.obj = R.Task(target=body, args=(self, r), name=r.name)
+        if r.idx in self.late:
+          r.state = "unstarted"
+        else:
           r.state = "ready"
           r.obj.start(sch, priority=r.prio, fast=True)
       else:
@@ -480,12 +532,19 @@ class World (object):
     if kind == "exit":
       r.state = "exit"; self.exited = True
       return R.Exit()
+    if kind == "opraise":
+      # differential twin: the same operation simply never reschedules the task
+      r.state = "done" if self.twin == r.idx else "raised"
+      return _task_classes(R)["RaisingOp"](arg, "blocking-operation", self.twin != r.idx, "%s's operation at step %d raises" % (r.name, i))
+    if kind == "callblocking":
+      r.state = "cb"; r.cb_done = False
+      return R.CallBlocking(_cb_func, args=(self, r, i, arg))
     if kind == "again":
       r.state = "again"
       subs = _subs(R)
       if arg == "v": return R.Again(sub_gen(self, r, i, "v"))
       if arg == "s": return subs["tf_sleepval"](self, r, i, "s")
-      if arg in ("r", "e", "sr", "se"): return R.Again(sub_gen(self, r, i, arg))
+      if arg in ("r", "e", "sr", "se", "rS"): return R.Again(sub_gen(self, r, i, arg))
       if arg == "tf": return subs["tf_plain"](self, r, i, False)
       if arg == "tfr": return subs["tf_plain"](self, r, i, True)
       if arg in SHAPE_INNER: return R.Again(mid_gen(self, r, i, arg))
@@ -497,6 +556,8 @@ class World (object):
     now = self.now()
     if exc is not None:
       got = ("exc", type(exc).__name__)
+    elif kind == "callblocking" and isinstance(v, tuple) and len(v) == 2:
+      got = ("cb", repr(v[0]), None if v[1] is None else getattr(v[1][0], "__name__", "?"))
     elif isinstance(v, tuple) and len(v) == 3 and v[:1] == ("subval",):
       got = ("subval", v[1], v[2])
     elif isinstance(v, tuple) and len(v) == 3 and all(isinstance(x, list) for x in v):
@@ -517,6 +578,17 @@ class World (object):
       if now < r.req:
         self.fail("timed-wake-early:%s" % ("number" if kind == "num" else "Sleep"),
                   "%s resumed from '%s' at +%s, requested +%s" % (r.name, OPS[op][2], now - T0, r.req - T0))
+    elif kind == "opraise":
+      self.fail("raise-isolation:task-resumed-after-its-blocking-operation-raised",
+                "%s resumed from '%s' with %s" % (r.name, OPS[op][2], _got_text(got, exc)))
+    elif kind == "callblocking":
+      if not r.cb_done:
+        self.fail("callblocking:resumed-before-the-call-finished", "%s resumed from '%s' with %r before the function had finished" % (r.name, OPS[op][2], got))
+      elif arg in ("r", "rS"):
+        if not (got[0] == "cb" and v[0] is None and isinstance(v[1][1], CBError if arg == "r" else SystemExit) and v[1][1].args == (r.idx, i)):
+          self.fail("callblocking:wrong-result", "%s resumed from '%s' with %r" % (r.name, OPS[op][2], got))
+      elif not (got[0] == "cb" and v[0] == ("cbval", r.idx, i) and v[1] is None):
+        self.fail("callblocking:wrong-result", "%s resumed from '%s' with %r" % (r.name, OPS[op][2], got))
     elif kind == "block":
       if not r.woken:
         self.fail("unrequested-wake:%s" % arg, "%s resumed from '%s' although nobody scheduled it" % (r.name, OPS[op][2]))
@@ -570,7 +642,7 @@ class World (object):
         if got != ("subval", r.idx, i):
           self.fail(key, "%s called a sub-task that %s; it received %s" % (r.name, SHAPE_NAME[arg], _got_text(got, exc)))
       elif want == "exc":
-        if not (isinstance(exc, SubError) and exc.args == exc_args):
+        if not (isinstance(exc, SystemExit if arg == "rS" else SubError) and exc.args == exc_args):
           self.fail(key, "%s called a sub-task that %s; it received %s" % (r.name, SHAPE_NAME[arg], _got_text(got, exc)))
       else:
         if exc is not None or v is not None:
@@ -604,6 +676,14 @@ class World (object):
     elif n > expect:
       self.fail("timer:extra-fire:" + r.spec, "%s (%s) called back %d times" % (r.name, TIMERS[r.spec][2], n))
     rv = None
+    if r.spec in TIMER_RAISES:
+      try:
+        self.consume("%s.cb" % r.name)
+      finally:
+        self.end()
+      if self.twin == r.idx: return False          # differential twin: the callback ends the timer instead of raising
+      r.state = "raised"
+      raise script_exc(TIMER_RAISES[r.spec], "timer-callback", "%s's callback raises" % r.name)
     if r.spec in ("slow1", "slow2"):
       self.advance(1 if r.spec == "slow1" else 2)       # the callback itself takes that long
     if r.spec in ("rec2", "slow1", "slow2", "parkedrec") and n >= 2: rv = False
@@ -633,7 +713,7 @@ class World (object):
     for r in self.recs:
       if r.kind == "t":
         s = r.state
-        if s in ("done", "raised", "blocked", "running"): continue
+        if s in ("done", "raised", "blocked", "running", "unstarted"): continue
         what = "%s never resumed from '%s' (step %d)" % (r.name, OPS[r.op][2] if r.op else "start", (r.opi or 0))
         if s == "ready":
           self.fail("lost:runnable-task-never-run", what if r.op else "%s was started and never ran" % r.name)
@@ -648,10 +728,14 @@ class World (object):
         elif s == "send":
           self.fail("lost-wake:Send" + (":after-a-send()-that-took-nothing" if r.fd.eagain > r.eagain_before else ""),
                     what + "; the socket took %d of %d bytes; send() calls: %r" % (len(r.fd.tx), len(r.tx_expect), r.fd.sends[-4:]))
+        elif s == "cb" and any(x is r.obj for x in rq):
+          self.fail("lost:runnable-task-never-run", what + "; the function had finished and the task was queued")
+        elif s == "cb":
+          self.fail("lost-wake:CallBlocking", what + ("; the function had finished" if r.cb_done else "; the function never finished"))
         elif s == "again":
           arg = OPS[r.op][1]
           key = SHAPE_KEY[arg]
-          if SHAPE_EXPECT[arg] == "exc" and r.style == "target" and r.sub_done:
+          if SHAPE_EXPECT[arg] == "exc" and r.style == "target" and r.sub_done and arg != "rS":
             # one defect whatever the sub-task's shape: the exception is thrown into the Task.run wrapper
             key = "subtask-result:exception-never-reaches-a-Task(target)-caller"
           self.fail(key, "%s called a sub-task that %s and %s" % (r.name, SHAPE_NAME[arg],
@@ -667,7 +751,7 @@ class World (object):
     if self.exited or self.abort: return False
     for r in self.recs:
       if r.kind == "t":
-        if r.state in ("new", "ready", "timed", "again", "running"): return True
+        if r.state in ("new", "ready", "timed", "again", "running", "cb"): return True
         if r.state in ("select", "recv") and (r.req is not None or r.fd.will_be_readable()): return True
         if r.state == "send": return True
       elif r.cancel_seq is None and r.created is not None and len(r.fires) < TIMERS[r.spec][1]:
@@ -714,17 +798,18 @@ def body (w, r):
   for i in range(n):
     op = script[i]
     w.step_begin(r, i)
-    if op == "!":
+    if OPS[op][0] == "raise":
       w.consume("%s.%d" % (r.name, i))
       if w.twin == r.idx:           # differential twin: the same task ends here instead of raising
         r.state = "done"; w.end(); return
       r.state = "raised"; w.end()
-      raise ScriptError("%s raises at step %d" % (r.name, i))
+      raise script_exc(OPS[op][1], "step", "%s raises at step %d" % (r.name, i))
     y = w.prepare(r, i, op)
     w.end()
     try:
       v = yield y
-    except Exception as e:
+    except BaseException as e:
+      if not isinstance(e, Exception) and not scripted(e): raise      # (the interpreter closing the generator)
       w.resumed(r, i, op, None, e)
     else:
       w.resumed(r, i, op, v, None)
@@ -757,6 +842,8 @@ def sub_gen (w, r, i, shape, inner=False, last=True):
     yield ("subval", r.idx, i) + extra
   elif shape in ("r", "se"):
     raise SubError(r.idx, i, *extra)
+  elif shape == "rS":
+    raise script_exc("S", "sub-task", r.idx, i)
   else:
     return
 
@@ -803,6 +890,15 @@ def _tf_plain (w, r, i, raises):
   return ("subval", r.idx, i)
 
 
+def _cb_func (w, r, i, arg):
+  """What a task hands to CallBlocking: runs on a thread of its own."""
+  if arg == 1: w.R.time.sleep(1)
+  r.cb_done = True
+  if arg == "r": raise CBError(r.idx, i)
+  if arg == "rS": raise script_exc("S", "function handed to CallBlocking", r.idx, i)
+  return ("cbval", r.idx, i)
+
+
 def _make_cb (w, r):
   def cb ():
     return w.fired(r)
@@ -820,7 +916,13 @@ def _task_classes (R):
         R.Task.__init__(self, name=r.name)
       def run (self):
         return body(self._w, self._r)
-    c = _CACHE[("cls", id(R))] = dict(ProgTask=ProgTask)
+    class RaisingOp (R.BlockingOperation):
+      """A blocking operation that fails when the scheduler executes it."""
+      def __init__ (self, kind, where, raises, text):
+        self.kind = kind; self.where = where; self.raises = raises; self.text = text
+      def execute (self, task, scheduler):
+        if self.raises: raise script_exc(self.kind, self.where, self.text)
+    c = _CACHE[("cls", id(R))] = dict(ProgTask=ProgTask, RaisingOp=RaisingOp)
   return c
 
 def _subs (R):
@@ -974,7 +1076,16 @@ def run_inline (ctx, prog, twin=None, epoll=False):
     sch.run()
   except Abort:
     pass
-  except Exception as e:
+  except BaseException as e:
+    if not isinstance(e, Exception):
+      if not scripted(e): raise                 # meant for the harness process, not raised by the program
+      # one key per place in Scheduler.cycle that must contain it: the task's step (a timer callback and a sub-task
+      # are steps of their tasks) / the execute() of the operation it yielded
+      w.fail("raise-isolation:what-a-task-raised-escapes-Scheduler.run:%s:non-Exception-BaseException"
+             % ("blocking-operation" if scripted(e) == "blocking-operation" else "step"),
+             "Scheduler.run() ended with the %s that a %s of the program raised: %s" % (type(e).__name__, scripted(e), e))
+      w.at_horizon_skipped = True; w.crashed = True
+      return w
     import traceback
     tb = traceback.extract_tb(e.__traceback__)
     site = next(("%s:%s" % (f.filename.rsplit("/", 1)[-1], f.name) for f in reversed(tb) if "/pox/" in f.filename), "?")
@@ -989,7 +1100,7 @@ def run_inline_checked (ctx, prog, epoll=False):
   """One execution plus, for every task that raised in it, the differential twin (the same task returning
   instead of raising, same environment choices): everything the other entities did must be identical."""
   w = run_inline(ctx, prog, epoll=epoll)
-  if not w.abort:
+  if not w.abort and not w.crashed:
     for r in w.recs:
       if r.state != "raised": continue
       ctx2 = Ctx(ctx.choices())
@@ -1073,7 +1184,9 @@ def inline_suites (cfg):
             ("2 tasks, <=4 yields (<=2 each), every priority assignment in {1,0.5}", OPS_PRIO, 2, 4, 1, 2, False, True),
             ("3 tasks, <=3 yields (<=1 each), every priority assignment in {1,0.5}", OPS_PRIO, 3, 3, 1, 1, False, True),
             ("2 entities, <=3 yields, timers built with started=False and start()ed by a task", OPS_PARK, 2, 3, 1, 3, TIMERS_PARK),
-            ("2 tasks, <=3 yields, epoll hub (use_epoll=True over a scripted epoll object)", OPS_EPOLL, 2, 3, 1, 3, False, False, dict(epoll=True))]
+            ("2 tasks, <=3 yields, epoll hub (use_epoll=True over a scripted epoll object)", OPS_EPOLL, 2, 3, 1, 3, False, False, dict(epoll=True)),
+            ("2 entities, <=3 yields, what a step / a blocking operation's execute() / a timer callback / a sub-task raises: Exception, SystemExit, GeneratorExit, KeyboardInterrupt, other BaseException",
+             OPS_RAISE_CTX, 2, 3, 1, 3, TIMERS_RAISE)]
   return [("2 entities, <=4 yields", OPS_QUICK, 2, 4, 2),
           ("2 entities, <=6 yields (every ordered pair of scripts of <=3 yields)", OPS_QUICK, 2, 6, 0),
           ("2 entities, <=3 yields, extended vocabulary", OPS_QUICK + OPS_EXTRA, 2, 3, 1),
@@ -1086,7 +1199,10 @@ def inline_suites (cfg):
           ("2 tasks, <=4 yields (<=2 each), every priority assignment in {1,0.5}", OPS_PRIO, 2, 4, 2, 2, False, True),
           ("3 tasks, <=4 yields (<=2 each), every priority assignment in {1,0.5}", OPS_PRIO, 3, 4, 1, 2, False, True),
           ("2 entities, <=4 yields, timers built with started=False and start()ed by a task", OPS_PARK, 2, 4, 2, 3, TIMERS_PARK),
-          ("2 tasks, <=4 yields, epoll hub (use_epoll=True over a scripted epoll object)", OPS_EPOLL, 2, 4, 2, 3, False, False, dict(epoll=True))]
+          ("2 tasks, <=4 yields, epoll hub (use_epoll=True over a scripted epoll object)", OPS_EPOLL, 2, 4, 2, 3, False, False, dict(epoll=True)),
+          ("2 entities, <=4 yields, what a step / a blocking operation's execute() / a timer callback / a sub-task raises: Exception, SystemExit, GeneratorExit, KeyboardInterrupt, other BaseException",
+           OPS_RAISE_CTX, 2, 4, 2, 3, TIMERS_RAISE),
+          ("3 entities, <=3 yields (<=2 each), what a step / a blocking operation's execute() / a timer callback / a sub-task raises", OPS_RAISE_CTX, 3, 3, 1, 2, TIMERS_RAISE)]
 
 
 # ---------------------------------------------------------------------------------------------------
@@ -1096,6 +1212,9 @@ def inline_suites (cfg):
 HANDOFF = ("Scheduler.fast_schedule", "Scheduler.run", "SelectHub.idle", "SelectHub.break_idle", "SelectHub._cycle",
            "SelectHub.registerSelect", "SelectHub.registerTimer", "SelectHub._return", "SelectHub._threadProc",
            "Scheduler.schedule", "Scheduler.quit", "Sleep.execute", "Select.execute", "Exit.execute")
+
+# further hand-off functions when threads other than the scheduler's (and the hub's) take part
+HANDOFF_FOREIGN = ("CallBlocking.execute", "CallBlocking._proc", "ScheduleTask.run", "BaseTask.start")
 
 def T (*script): return ("t", tuple(script))
 
@@ -1127,7 +1246,34 @@ THR_PROGRAMS = [
   ((T("Se1", "0"), T("Se")), {"step_time": {"T1.0": 2}, "epoll": True}),
   ((T("Se", "0"), T("Rx1", "n1")), {0: 0.5, "epoll": True}),
   ((T("Txs", "Se1"), T("n1", "Se1")), {1: 1.5, "epoll": True}),
+  # a step raises something that is not an Exception while a sibling sleeps
+  ((T("0", "!S"), T("n1")), {}),
+  ((T("n1", "!S"), T("S2", "0")), {"thorough": True}),
+  # INLINE hub (threaded_selecthub=False: the scheduler thread itself sits in select) with wake-ups that arrive from other
+  # threads: the completion of a CallBlocking (instant / after 1 s / raising), schedule() of a blocked task, start() of a new
+  # task (fast_schedule directly / through a ScheduleTask), at once or while the hub waits for a timer, alone or two at a time
+  ((T("CB", "0"),), {"inline": True}),
+  ((T("CB1", "0"), T("n1")), {"inline": True}),
+  ((T("CBr", "0"), T("0", "0")), {"inline": True}),
+  ((T("CBrS", "0"),), {"inline": True}),
+  ((T("F", "0"), T("0", "0")), {"inline": True, "foreign": [[["sched", 0]]]}),
+  ((T("SN", "0"), T("S2")), {"inline": True, "foreign": [[["at", 1], ["sched", 0]]]}),
+  ((T("n1"), T("0")), {"inline": True, "late": [1], "foreign": [[["start", 1, 1]]]}),
+  ((T("F"), T()), {"inline": True, "late": [1], "foreign": [[["sched", 0], ["start", 1, 0]]]}),
+  ((T("F", "0"), T("0")), {"inline": True, "late": [1], "foreign": [[["sched", 0]], [["start", 1, 0]]], "thorough": True}),
+  ((T("CB"), T("Se1")), {"inline": True, "epoll": True}),
+  ((T("CB", "Se1"), T("Se")), {1: 0.5, "inline": True, "epoll": True, "thorough": True}),
+  # the same kinds of wake-up with the threaded hub
+  ((T("CB"),), {}),
+  ((T("CB", "0"), T("n1")), {"thorough": True}),
+  ((T("F"), T("0")), {"foreign": [[["sched", 0]]]}),
+  ((T("F", "0"), T("0", "0")), {"foreign": [[["sched", 0]]], "thorough": True}),
 ]
+
+
+def thr_programs (cfg):
+  """Indices of the programs of this tier (the quick tier leaves out the larger variants marked "thorough")."""
+  return [pi for pi, (prog, o) in enumerate(THR_PROGRAMS) if not (cfg.quick and o.get("thorough"))]
 
 
 def _polling_select (thr):
@@ -1157,7 +1303,12 @@ def run_threaded (ctx, prog, fd_at, funcs=HANDOFF, max_points=8000, keep_log=Fal
   opts = dict((k, v) for k, v in fd_at.items() if isinstance(k, str) and not k.isdigit())
   fd_at = dict((int(k), v) for k, v in fd_at.items() if not (isinstance(k, str) and not k.isdigit()))
   epoll = bool(opts.get("epoll"))
+  inline = bool(opts.get("inline"))
+  foreign = opts.get("foreign") or []
+  if funcs is not None and (inline or foreign or any(OPS[o][0] == "callblocking" for e in prog if e[0] == "t" for o in e[1])):
+    funcs = tuple(funcs) + HANDOFF_FOREIGN
   w = World(ctx, prog, R, None, "threaded", env_choices=False)
+  w.late = tuple(opts.get("late") or ())
   w.step_time = dict(opts.get("step_time") or {})
   w.epoll = epoll
   S = thr.Sched(ctx, trace_files=("recoco/recoco.py",), trace_funcs=funcs, pending=w.pending, max_points=max_points)
@@ -1178,7 +1329,7 @@ def run_threaded (ctx, prog, fd_at, funcs=HANDOFF, max_points=8000, keep_log=Fal
     import pox.lib.epoll_select as ES
     ES.select = VEpollModule(w, R.select.select)
   R.Scheduler.runThreaded = R.Scheduler._orig_runThreaded
-  sch = R.Scheduler(isDefaultScheduler=True, startInThread=True, threaded_selecthub=True, use_epoll=epoll)
+  sch = R.Scheduler(isDefaultScheduler=True, startInThread=True, threaded_selecthub=not inline, use_epoll=epoll)
   R.defaultScheduler = sch
   w.on_sched_thread = lambda: S.cur is not None and S.cur.obj is sch._thread
   sch._random = w.rand            # 0.0: the priority-0.5 task is never deferred in this part
@@ -1190,6 +1341,8 @@ def run_threaded (ctx, prog, fd_at, funcs=HANDOFF, max_points=8000, keep_log=Fal
       for t in instants:
         if t > S.now: ct.sleep(t - S.now)
     S.spawn(env, name="env")
+  for k, script in enumerate(foreign):
+    S.spawn(_foreign(w, S, R, sch, script), name="foreign%d" % k)
   leaked = S.run(first=0)
   v = S.verdict
   if leaked and v is None: v = ("leaked-threads", ",".join(leaked))
@@ -1203,6 +1356,28 @@ def run_threaded (ctx, prog, fd_at, funcs=HANDOFF, max_points=8000, keep_log=Fal
   if v is not None and not w.bad:
     w.fail("threaded-hub:" + v[0], v[1])
   return w
+
+
+def _foreign (w, S, R, sch, script):
+  """A thread that is neither the scheduler's nor the hub's.  Actions: ["at", d] sleep until T0+d; ["sched", i] once task i
+  has blocked (yield False / Sleep(None)), wake it with Scheduler.schedule(); ["start", i, fast] start task i (built but not
+  started) with Task.start(fast=...)."""
+  def body ():
+    for act in script:
+      if act[0] == "at":
+        if T0 + act[1] > S.now: R.time.sleep(T0 + act[1] - S.now)
+      elif act[0] == "sched":
+        r = w.recs[act[1]]
+        S.block(lambda: r.state == "blocked", what="%s to block" % r.name)
+        r.woken = True; r.state = "ready"
+        sch.schedule(r.obj)
+      elif act[0] == "start":
+        r = w.recs[act[1]]
+        r.state = "ready"
+        r.obj.start(sch, priority=r.prio, fast=bool(act[2]))
+      else:
+        raise RuntimeError("unknown action %r" % (act,))
+  return body
 
 
 def _thr_first (item):
@@ -1271,7 +1446,7 @@ def run_threaded_part (cfg, rep, which=None):
   for ci, (funcs, bound) in enumerate(threaded_configs(cfg)):
     if which is not None and ci != which: continue
     items = []
-    firsts = list(pmap(_thr_first, [(pi, funcs) for pi in range(len(THR_PROGRAMS))], cfg.workers))
+    firsts = list(pmap(_thr_first, [(pi, funcs) for pi in thr_programs(cfg)], cfg.workers))
     for pi, kids, nchoice, npoints in sorted(firsts):
       pts["program %d/%s" % (pi, "handoff-funcs" if funcs else "all-lines")] = dict(scheduling_points=npoints, choice_points=nchoice, bound=bound)
       items.append((pi, funcs, 0, [[]]))
@@ -1387,27 +1562,39 @@ def run (cfg):
   rep.bound = dict(inline_suites=[dict(name=n, vocabulary=list(o), entities=e, total_yields=t, deviations=d, programs=counts.get(n))
                                   for n, o, e, t, d in [x[:5] for x in suites]],
                    threaded=[dict(funcs="hand-off functions" if f else "every line of recoco.py", deviations=b) for f, b in threaded_configs(cfg)],
+                   threaded_programs=["%d: %s%s" % (pi, prog_text(THR_PROGRAMS[pi][0]), "".join("; %s=%r" % kv for kv in sorted((str(k), v) for k, v in THR_PROGRAMS[pi][1].items() if k != "thorough")))
+                                      for pi in thr_programs(cfg)],
                    threaded_points=pts, epoll_select_call_sequences_depth=epoll_depth)
   rep.rule = ("PART 1 (inline hub): every ordered tuple of entities within the suites listed under `bound` - an entity is a task "
               "(generator script of <=3 yields over the vocabulary: yield 0 / 1 / Sleep(2) / Sleep(None) / False / Select([fd],timeout None|1) / "
               "Again or task_function with a sub-task that yields a value | sleeps then yields | raises | returns before yielding | is a plain "
               "function | itself calls an inner sub-task (value, exception caught or not, before/after a sleep) / Sleep(0) and absolute-time Sleeps at now-1, now, now+1 / Send of 20000 or 5 bytes and Recv "
-              "(timeout None|1) on the task's fake socket / wake the blocked siblings with schedule() / cancel the timers / Exit() / raise) or a Timer (one-shot, recurring "
-              "self-stopping, cancelled before fire, cancelled by its callback, selfStoppable=False, callback taking the interval or longer) - run on a real Scheduler.run() with a "
+              "(timeout None|1) on the task's fake socket / wake the blocked siblings with schedule() / cancel the timers / Exit() / raise an Exception, SystemExit, "
+              "GeneratorExit, KeyboardInterrupt or another non-Exception BaseException / yield a BlockingOperation whose execute() raises an Exception, SystemExit or "
+              "other BaseException / Again(sub raising SystemExit)) or a Timer (one-shot, recurring "
+              "self-stopping, cancelled before fire, cancelled by its callback, selfStoppable=False, callback taking the interval or longer, callback raising an "
+              "Exception / SystemExit, one-shot or recurring) - run on a real Scheduler.run() with a "
               "virtual clock and virtual select up to the horizon; entity 0 is a Task subclass with priority 0.5, the others Task(target=) with "
               "priority 1, except in the priority suites where every assignment of {1,0.5} to the tasks is enumerated; "
               "environment: fd readiness instant {never,+0.5,+1.5} per selecting/receiving task (all explored); deviations (bounded): a run of "
               "1..k high draws of Scheduler._random (k = number of tasks with priority < 1), virtual time per step 0.625 instead of 0, a send() "
               "accepting half / one byte / nothing (EAGAIN) instead of everything, a recv() handing out one byte instead of everything; a program with a raising task is also run with that task returning "
-              "instead (differential).  PART 2 (threaded hub): %d programs of the same grammar with the scheduler thread, the hub thread and "
-              "an environment thread under the controlled-thread explorer, every schedule within the deviation bound (scheduling points: "
-              "lines of the hand-off functions / all lines of recoco.py + every Event/Queue/select/pinger/Thread operation).  PART 3: every sequence "
+              "instead (differential).  PART 2 (controlled threads): %d programs of the same grammar (listed under bound.threaded_programs) under the "
+              "controlled-thread explorer, every schedule within the deviation bound (scheduling points: "
+              "lines of the hand-off functions / all lines of recoco.py + every Event/Queue/select/pinger/Thread operation): threaded hub = scheduler thread + "
+              "hub thread + an environment thread; inline hub (threaded_selecthub=False, the scheduler thread itself sits in select) and threaded hub with wake-ups "
+              "from other threads = the worker thread of `yield CallBlocking(f)` (f returns at once / after 1 s / raises an Exception / raises SystemExit) and foreign threads that call "
+              "Scheduler.schedule(blocked task) or Task.start(fast=True|False) of a new task, at once or at +1 s while the hub waits for a timer; an execution in "
+              "which work is pending and only a polling timeout (CYCLE_MAXIMUM) or nothing at all could wake the scheduler is a lost wake-up.  PART 3: every sequence "
               "of <=2 (thorough 3) select(rl, wl, [], 0) calls on one EpollSelect (the hub's use_epoll select function), rl/wl over the subsets "
               "of two real local sockets x each readable or not, against select.select.  distinct = distinct (per-entity step "
-              "times, received values, final states, verdict)" % len(THR_PROGRAMS))
+              "times, received values, final states, verdict)" % len(thr_programs(cfg)))
   rep.assumptions = ["each selecting task has its own fd; an fd stays readable once readable",
                      "run() executes on the scheduler's own thread (Scheduler._thread), as in POX",
                      "`yield None` (kills the scheduler by design) and schedule() of a task that waits in the hub are outside the vocabulary",
+                     "what a task raises is reported on a working stdout / logger (a failing report channel is not an input)",
+                     "cross-thread wake-ups: one waker per blocked task (fast_schedule() of the same task from two threads is documented as racy); "
+                     "callLater and several threads waking the same task are C07's subject",
                      "threaded part: modelled Event/Queue/select/pinger semantics of mc/thr.py, CPython-atomic deque/dict operations, "
                      "no partial-order reduction (counts are schedules)"]
   return rep
@@ -1452,7 +1639,7 @@ def replay (cfg, data):
       funcs = data.get("funcs")
       w = run_threaded(ctx, prog, data["fd_at"], None if funcs is None else tuple(funcs))
       dev = [(i, t[2], t[0]) for i, t in enumerate(ctx.trace) if t[0]]
-      extra = "threaded hub; schedule deviations (choice index, at, thread picked): %r" % (dev,)
+      extra = ("inline hub on a scheduler thread, wake-ups from other threads" if data["fd_at"].get("inline") else "threaded hub") + "; schedule deviations (choice index, at, thread picked): %r" % (dev,)
     else:
       w = run_inline_checked(ctx, prog, bool(data.get("epoll")))
       extra = "inline hub%s; environment deviations: %r" % (" (epoll)" if data.get("epoll") else "", [(l, c) for l, c in ctx.labelled() if c])
